@@ -1166,6 +1166,17 @@ func init() {
 		}
 		return tuple{out, iface{}}
 	}
+	// ishex reads a table that a package init (not run by the engine) fills: model it directly
+	externals["net/url.ishex"] = func(fr *frame, a []value) value {
+		if c, ok := a[0].(uint8); ok {
+			return ('0' <= c && c <= '9') || ('a' <= c && c <= 'f') || ('A' <= c && c <= 'F')
+		}
+		t := a[0].(sym).t
+		in := func(lo, hi byte) string {
+			return "(and (bvuge " + t + " " + u8lit(lo) + ") (bvule " + t + " " + u8lit(hi) + "))"
+		}
+		return sym{kBool, "(or " + in('0', '9') + " " + in('a', 'f') + " " + in('A', 'F') + ")"}
+	}
 	externals["net/url.QueryEscape"] = func(fr *frame, a []value) value {
 		str, ok := a[0].(string)
 		if !ok {
